@@ -40,6 +40,11 @@ CLAIMED = {
   ref="DESIGN.md §6 C10",
   note="Partial: that the file re-reads to the same header/format/layout and that every surface decodes are implementation-only oracles here (the header round trip is C09's theorem, pixel content C03-C05/C12); the length accounting is proved on the model and compared call by call. Only RGBA_U8 input at quality Fast is fed here; the other input colours / qualities / dithering are exercised by C12-C15.",
   tech="Coq proof (corollaries of the C11 invariant and C02 tiling) + differential execution with re-opening of every finished file"),
+ "C14": dict(
+  text="Coq theorems: for every image size < 2^32, split height <= 255, preferred fragment size and dithering combination, the fragments of a split view are rows [i*fh, min((i+1)*fh, h)), non-empty, consecutive from 0 to h, computed without u32 overflow, all but the last of exactly the full fragment height which is a multiple of the split height; no split happens when non-local dithering applies; for any encoder that is local to groups of split-height rows, cutting at multiples of the group height commutes with encoding, hence the index-ordered collection of encoded fragments (the result of encode_parallel is a function of the index-ordered list only, whatever the completion order) equals the sequential encoding. The geometry model is tied to src/split.rs by differential execution over sizes around the fragment thresholds; byte equality parallel == sequential == fragment-wise is checked on the implementation under rayon pools of 1..16 threads with hook-imposed completion orders.",
+  ref="DESIGN.md §6 C14",
+  note="Partial: that rayon's indexed collect preserves order, that worker threads share no hidden state, and that each picked encoder really is local to split-height row groups are runtime / implementation facts exercised by the byte comparison, not proved. Preferred fragment sizes are observed through the public SplitView API on every run. Trusted: Coq kernel; hand-written geometry model tied by differential execution; hook H1 (cfg(dds_verif)) only adds delays.",
+  tech="Coq proof (arithmetic of the split + list lemma on group-local encoders) + differential execution + schedule-perturbed byte comparison"),
 }
 WIP = "check not built yet (work in progress, see DESIGN.md §10 staging); proof applies and is planned"
 
@@ -88,7 +93,7 @@ def main():
         json.dump(m, f, indent=1)
     print("claimed:", claimed)
 
-HOOK_COMMITS = []
+HOOK_COMMITS = ["9e46b42"]
 NA = {}
 if __name__ == "__main__":
     main()
